@@ -119,7 +119,7 @@ re-verified on the unchanged tree over several `VERIF_SEED` values):
   four-state DFA whose state set re-hashes when a fifth state is added.
 
 `./selftest regressions` re-introduces each of the repaired defects alone (reverse patch on a scratch copy) and
-requires the owning check to report it again: all 50 re-found in the quick tier (last run on the final code; twice
+requires the owning check to report it again: 49 of 50 re-found in the quick tier; with FX-40 reverted (`Variable(x) == Terminal(x)` in one direction only) the C11 check no longer gets as far as a VIOLATION line -- its workers exceed the wall cap and the check ends with HARNESS-TIMEOUT, exit 3, which is not a pass but not the attributed report it was when the fix was made; open item, most likely a case of the grown C11 workload that loops inside one library call on that tree (last run on the final code; twice
 a later workload change had made an earlier repair invisible -- FX-24 after the importer fix, FX-36 after a pool
 change -- and the workload was adjusted until it was found again). `./selftest sensitivity` applies a
 catalogue of 48 hand-written one-place mutants (all caught) and 14 behaviour-preserving control edits of internal names, numbering and enumeration order (all quiet) (one mutant of the first catalogue was replaced and one re-qualified after
